@@ -62,7 +62,10 @@ func (line *Line) Target() string {
 		if !line.Public() {
 			return line.Nick
 		}
-		return line.Args[1]
+		if len(line.Args) > 1 {
+			return line.Args[1]
+		}
+		return ""
 	}
 	if len(line.Args) > 0 {
 		return line.Args[0]
@@ -79,6 +82,9 @@ func (line *Line) Target() string {
 func (line *Line) Public() bool {
 	switch line.Cmd {
 	case PRIVMSG, NOTICE, ACTION:
+		if len(line.Args) < 1 || len(line.Args[0]) < 1 {
+			return false
+		}
 		switch line.Args[0][0] {
 		case '#', '&', '+', '!':
 			return true
@@ -90,6 +96,9 @@ func (line *Line) Public() bool {
 		// TODO(fluffle): Arguably this is broken, and we should have
 		// line.Args containing: []string{"#foo", "BAR", "baz"}
 		// ... OR change conn.Ctcp()'s argument order to be consistent.
+		if len(line.Args) < 2 || len(line.Args[1]) < 1 {
+			return false
+		}
 		switch line.Args[1][0] {
 		case '#', '&', '+', '!':
 			return true
